@@ -39,6 +39,15 @@ CLAIMED = {
     note='ASCII only. SEARCH theorem is bounded (stated in the theorem). repr(float) oracle; strptime ladder of VALUE not modelled; the regex '
          'engine is validated against Python re by a differential test. Known findings: empty_text_is_blank, search_* (4 classes), *_text_form (3).',
     technique='Coq proof (lists, lia) + kernel-exhaustive vm_compute sweep + vm_compute correspondence', ref='6/C17'),
+ 'C15': dict(
+    text='Unbounded Coq theorems: CPython\'s ordinal<->(y,m,d) maps are mutually inverse on every day from 0001-01-01 on (400-year periodicity '
+         'by lia + one full 146097-day cycle swept in the kernel; injectivity of the ordinal map); dateutil relativedelta month arithmetic = floor '
+         'division for every integer offset; DATE(y,m,d) = Jan 1 + (m-1) months + (d-1) days for every integer m, d; YEAR/MONTH/DAY invert DATE; '
+         'EDATE clamps, EOMONTH = last day; DATEDIF D/M/YM; NETWORKDAYS = count of Mon-Fri non-holiday dates (induction on the span), negated when reversed. '
+         'Correspondence by direct helper calls and formulas, plus datetime/calendar library facts against the calendar model.',
+    note='TODAY depends on the clock (oracle; checked by reading the clock before and after). dateutil/datetime/calendar are modelled, tied by '
+         'correspondence. Known finding: datedif_Y_by_days.',
+    technique='Coq proof (lia with euclidean division, kernel cycle sweep, induction) + vm_compute correspondence', ref='6/C15'),
 }
 
 ids = [json.loads(l)['id'] for l in open('/verif/properties.jsonl')]
